@@ -759,7 +759,10 @@ static int write_loop_start(cif_loop_tp *loop, void *context) {
                             result = cif_validate_cif11_characters(*next_name, NULL);
                         }
                         if (result == CIF_TRAVERSE_CONTINUE) {
-                            if (u_fprintf(CONTEXT_UFILE(context), " %S\n", *next_name) < 4) {
+                            /* names are indented by one space, unless that would make the line too long */
+                            const char *indent = ((u_countChar32(*next_name, -1) < LINE_LENGTH(context)) ? " " : "");
+
+                            if (u_fprintf(CONTEXT_UFILE(context), "%s%S\n", indent, *next_name) < 3) {
                                 result = CIF_ERROR;
                             }
                             SET_LAST_COLUMN(context, 0);
